@@ -99,6 +99,7 @@ def run(name, checks, inplace=False):
         r = sh("git -C /repo worktree add -q --detach %s HEAD" % wt)
         assert r.returncode == 0, r.stderr
     out = {}
+    vroot = None
     try:
         r = sh("git -C %s apply %s/patch.diff" % (wt, d))
         assert r.returncode == 0, "patch does not apply to the current /repo HEAD (rebase it by hand): " + r.stderr
@@ -122,7 +123,8 @@ def run(name, checks, inplace=False):
             sh("cd %s && git checkout -- evidence" % ROOT)
         else:
             sh("git -C /repo worktree remove --force %s" % wt)
-            shutil.rmtree(vroot, ignore_errors=True)
+            if vroot:
+                shutil.rmtree(vroot, ignore_errors=True)
     res_path = os.path.join(d, "result.json")
     prev = json.load(open(res_path)) if os.path.exists(res_path) else {}
     prev.update(out)
@@ -147,8 +149,10 @@ def table():
             if r["rc"] == 1 and vio:
                 how = "caught, " + ("theorem/correspondence broken, no failing input" if all(
                     "no-failing-input-found" in l for l in vio) else "failing input replayed")
+            elif r["rc"] == 0 and meta.get("obsolete"):
+                how = "silent, correctly: the change no longer breaks the property (" + meta["obsolete"][:80] + ")"
             elif r["rc"] == 0:
-                how = "MISSED"
+                how = "MISSED" if c == meta.get("property") else "not seen by this other property's check"
             else:
                 how = "infrastructure failure (rc %s)" % r["rc"]
             rows.append("| %s | %s | %s | %s |" % (name, summ, c, how))
